@@ -19,14 +19,15 @@ def _exprs_to_axes(exprs):
     values = defaultdict(list)
     for root in exprs:
         for expr in root.nodes():
-            if isinstance(expr, stage3.Axis):
+            if isinstance(expr, stage3.Axis) and not expr._is_unnamed:
                 tokens = expr.name.split(".")
                 values[tokens[0]].append((tuple(int(t) for t in tokens[1:]), expr.value))
 
     values2 = {}
     for name, xs in values.items():
         shape = np.amax([coord for coord, value in xs], axis=0) + 1
-        value = np.zeros(shape, dtype="int32")
+        dtype = "int32" if all(v <= np.iinfo("int32").max for _, v in xs) else "int64"
+        value = np.zeros(shape, dtype=dtype)
         for coord, v in xs:
             value[coord] = v
         if value.shape == ():
